@@ -21,6 +21,7 @@ type Hello struct {
 	Comp    []byte
 	Exts    []Ext
 	Trail   []byte // bytes after the extensions vector (only EncodedClientHelloInner padding)
+	NoExtField bool // the hello ends after the compression methods (legal before TLS 1.3)
 }
 
 func U16(v int) []byte { return []byte{byte(v >> 8), byte(v)} }
@@ -47,6 +48,9 @@ func ExtBlock(es []Ext) []byte {
 
 // Body is the ClientHello structure (no handshake header).
 func (h *Hello) Body() []byte {
+	if h.NoExtField {
+		return Cat(U16(int(h.Version)), h.Random, LP8(h.SID), LP16(h.Suites), LP8(h.Comp), h.Trail)
+	}
 	return Cat(U16(int(h.Version)), h.Random, LP8(h.SID), LP16(h.Suites), LP8(h.Comp), LP16(ExtBlock(h.Exts)), h.Trail)
 }
 
